@@ -1,6 +1,7 @@
 import JaqalProofs.Props.C13
 import JaqalProofs.Props.C06
 import JaqalProofs.Lemmas.ExpandMacrosSem
+import JaqalProofs.Lemmas.BuilderTotal
 /-!
 The used-qubit visitor against the specification (`Spec/Sem.lean`): leaves.
 
@@ -134,6 +135,111 @@ theorem visitRegister_valid (ctx : Resolve.Ctx) (v : Val) (hv : ValidChain v) (l
     cases hq
     exact hr'
 
+/-! ### a typed register on which the specification's evaluation succeeds is a valid chain -/
+
+theorem isIntC_intOf {v : Val} (h : isIntC v = true) : ∃ k, intOf v = some k := by
+  cases v with
+  | int k => exact ⟨k, rfl⟩
+  | const n x => cases x <;> simp [isIntC] at h; exact ⟨_, rfl⟩
+  | _ => simp [isIntC] at h
+
+theorem RegT_noParam : ∀ v : Val, RegT v = true → ExpandMacros.noParam v = true
+  | .regF _ size, h => by
+    simp only [RegT] at h
+    obtain ⟨k, hk⟩ := isIntC_intOf h
+    simpa [ExpandMacros.noParam] using intOf_noParam hk
+  | .regA _ src, h => by simp only [RegT] at h; simpa [ExpandMacros.noParam] using RegT_noParam src h
+  | .regS _ src a b s, h => by
+    simp only [RegT, Bool.and_eq_true] at h
+    obtain ⟨⟨⟨h1, h2⟩, h3⟩, h4⟩ := h
+    obtain ⟨_, k2⟩ := isIntC_intOf h2
+    obtain ⟨_, k3⟩ := isIntC_intOf h3
+    obtain ⟨_, k4⟩ := isIntC_intOf h4
+    simp [ExpandMacros.noParam, RegT_noParam src h1, intOf_noParam k2, intOf_noParam k3, intOf_noParam k4]
+  | .int _, h | .flt _, h | .const _ _, h | .param _ _, h | .qubit _ _ _, h | .none, h | .str _, h => by simp [RegT] at h
+
+theorem mapM_all_ok {α β : Type} {f : α → M β} : ∀ {l : List α} {ys : List β}, l.mapM f = .ok ys →
+    ∀ x ∈ l, ∃ y, f x = .ok y := by
+  intro l
+  induction l with
+  | nil => intro ys _ x hx; cases hx
+  | cons a r ih =>
+    intro ys h x hx
+    simp only [List.mapM_cons] at h
+    obtain ⟨y, hy, h⟩ := bind_ok h
+    obtain ⟨ys', hys, _⟩ := bind_ok h
+    rcases List.mem_cons.1 hx with rfl | hx
+    · exact ⟨y, hy⟩
+    · exact ih hys x hx
+
+/-- **A register sized and sliced by ints / integer lets (`RegT`, what the builder makes of text) whose denotation the
+specification can compute is a valid chain**: the constructors' checks that the builder skips for let-valued sizes and
+bounds are implied by the success of `Sem.evalReg` (size ≥ 1, non-zero step, every element of a slice inside its source). -/
+theorem validChain_of_eval : ∀ (v : Val) (l : List Sem.FQ), RegT v = true → Sem.evalReg [] [] v = .ok l → ValidChain v
+  | .regF n sz, l, ht, h => by
+    simp only [RegT] at ht
+    obtain ⟨k, hk⟩ := isIntC_intOf ht
+    simp only [Sem.evalReg, evalInt_intOf hk, bind, Except.bind] at h
+    by_cases h1 : k < 1
+    · simp [h1] at h
+    · simp only [ValidChain, validChain, hk, decide_eq_true_eq]; omega
+  | .regA n src, l, ht, h => by
+    simp only [RegT] at ht
+    simp only [Sem.evalReg] at h
+    simpa [ValidChain, validChain] using validChain_of_eval src l ht h
+  | .regS n src a b s, l, ht, h => by
+    simp only [RegT, Bool.and_eq_true] at ht
+    obtain ⟨⟨⟨h1, h2⟩, h3⟩, h4⟩ := ht
+    obtain ⟨ia, k2⟩ := isIntC_intOf h2
+    obtain ⟨ib, k3⟩ := isIntC_intOf h3
+    obtain ⟨is, k4⟩ := isIntC_intOf h4
+    have h' := h
+    rw [ExpandMacros.evalReg_regS] at h'
+    obtain ⟨l0, hl0, _⟩ := bind_ok h'
+    have hvs : ValidChain src := validChain_of_eval src l0 h1 hl0
+    obtain ⟨K, hK, hK0⟩ := validChain_sizeI hvs
+    obtain ⟨l1, hl1, hlen, _, _⟩ := chain_spec hvs hK
+    rw [hl0] at hl1; cases hl1
+    have hs : is ≠ 0 := by
+      intro hz
+      have opt : ∀ (d : Int) (v : Val) (k : Int), intOf v = some k → ExpandMacros.optInt [] [] d v = .ok k := by
+        intro d v k hk
+        have := intOf_ne_none hk
+        cases v <;> first | exact evalInt_intOf hk | exact absurd rfl this
+      rw [ExpandMacros.evalReg_regS] at h
+      simp [hl0, opt _ _ _ k2, opt _ _ _ k3, opt _ _ _ k4, bind, Except.bind, hz] at h
+    rw [evalReg_regS_eq n src a b s k2 k3 k4 hl0 hs] at h
+    have hall := mapM_all_ok h
+    have inside : ∀ x ∈ Sem.rangeList ia ib is, 0 ≤ x ∧ x < K := by
+      intro x hx
+      obtain ⟨q, hq⟩ := hall x hx
+      cases hn : Sem.nth? l0 x with
+      | none => simp [hn] at hq
+      | some q' =>
+        have hx0 : 0 ≤ x := by
+          by_contra hneg
+          simp [Sem.nth?, show x < 0 by omega] at hn
+        rw [nth?_of_nonneg l0 hx0] at hn
+        have := (List.getElem?_eq_some_iff.1 hn).1
+        exact ⟨hx0, by omega⟩
+    simp only [ValidChain, validChain, hvs, hK, k2, k3, k4, Bool.true_and, Bool.and_eq_true, Bool.or_eq_true,
+      decide_eq_true_eq]
+    refine ⟨hs, ?_⟩
+    by_cases hle : rangeLenI ia ib is ≤ 0
+    · exact Or.inl hle
+    · right
+      have g0 := rangeList_get (a := ia) (e := ib) hs 0
+      simp only [Int.natCast_zero, show (0 : Int) < rangeLenI ia ib is by omega, if_true] at g0
+      have m0 := inside _ (List.mem_of_getElem? g0)
+      have gl := rangeList_get (a := ia) (e := ib) hs (rangeLenI ia ib is - 1).toNat
+      have hc : (((rangeLenI ia ib is - 1).toNat : Nat) : Int) = rangeLenI ia ib is - 1 := by omega
+      simp only [hc, show rangeLenI ia ib is - 1 < rangeLenI ia ib is by omega, if_true] at gl
+      have ml := inside _ (List.mem_of_getElem? gl)
+      simp only [Int.zero_mul, Int.add_zero] at m0
+      exact ⟨⟨⟨m0.1, m0.2⟩, ml.1⟩, ml.2⟩
+  | .int _, _, ht, _ | .flt _, _, ht, _ | .const _ _, _, ht, _ | .param _ _, _, ht, _ | .qubit _ _ _, _, ht, _
+  | .none, _, ht, _ | .str _, _, ht, _ => by simp [RegT] at ht
+
 /-! ### the logical relation between the visitor's context and the specification's bindings -/
 
 /-- the fundamental qubits an evaluated argument contains -/
@@ -169,16 +275,18 @@ def GoodIdx : Val → Prop
 
 def GoodSrc : Val → Prop
   | .param _ _ => True
-  | v => ValidChain v
+  | v => RegT v = true
 
-/-- a gate argument as the parser makes it: a parameter; a qubit `src[idx]` with `src` a parameter or a valid register chain
-and `idx` a parameter, an integer or an integer let constant; a valid register chain; a number or a numeric let constant -/
+/-- a gate argument as the builder makes it of text (`FillIn.InT`, `built_typed`): a parameter; a qubit `src[idx]` with `src` a
+parameter or a register sized and sliced by ints / integer lets (`RegT`) and `idx` a parameter, an integer or an integer
+let constant; such a register; a number or a numeric let constant. (That a `RegT` register is a VALID chain is not
+demanded: it follows wherever the specification's evaluation succeeds, `validChain_of_eval`.) -/
 def GoodArg : Val → Prop
   | .param _ _ => True
   | .qubit _ s i => GoodSrc s ∧ GoodIdx i
-  | .regF n sz => ValidChain (.regF n sz)
-  | .regA n s => ValidChain (.regA n s)
-  | .regS n s a b c => ValidChain (.regS n s a b c)
+  | .regF n sz => RegT (.regF n sz) = true
+  | .regA n s => RegT (.regA n s) = true
+  | .regS n s a b c => RegT (.regS n s a b c) = true
   | v => NumShape v
 
 theorem resolveAV_lit (ctx : Resolve.Ctx) (v : Val) (h : (∀ n k, v ≠ .param n k) ∧ (∀ n x, v ≠ .const n x)) :
@@ -229,6 +337,12 @@ theorem visit_den {v : Val} {sa : Sem.SArg} (h : Den v sa) (ctx : Resolve.Ctx) (
     obtain ⟨hv, hl⟩ := h
     rw [visitVal_register ctx f v hv] at hu
     simpa [Has] using visitRegister_valid ctx v hv qs hl ua hu r i
+
+theorem reg_closed {b : Sem.Bind} {v : Val} (ht : RegT v = true) {l : List Sem.FQ} (h : Sem.evalReg [] b v = .ok l) :
+    ValidChain v ∧ Sem.evalReg [] [] v = .ok l := by
+  have h0 : Sem.evalReg [] [] v = .ok l := by
+    rw [ExpandMacros.evalReg_noParam [] [] b _ (RegT_noParam v ht)]; exact h
+  exact ⟨validChain_of_eval v l ht h0, h0⟩
 
 /-- the value an index denotes, as the library resolves it: an int, or an integral float -/
 def IdxVal : Val → Int → Prop
@@ -318,18 +432,15 @@ theorem src_agree {ctx : Resolve.Ctx} {b : Sem.Bind} (hrel : CtxRel ctx b) {s : 
       | num x => simp [hb] at h
       | qubit q => simp [hb] at h
   | regF n sz =>
-    have hv : ValidChain (.regF n sz) := hg
-    exact ⟨_, resolveAV_lit ctx _ (validChain_not_av hv), hv, by
-      rw [ExpandMacros.evalReg_noParam [] [] b _ (validChain_noParam hv)]; exact h⟩
+    obtain ⟨hv, h0⟩ := reg_closed (show RegT (.regF n sz) = true from hg) h
+    exact ⟨_, resolveAV_lit ctx _ (validChain_not_av hv), hv, h0⟩
   | regA n src =>
-    have hv : ValidChain (.regA n src) := hg
-    exact ⟨_, resolveAV_lit ctx _ (validChain_not_av hv), hv, by
-      rw [ExpandMacros.evalReg_noParam [] [] b _ (validChain_noParam hv)]; exact h⟩
+    obtain ⟨hv, h0⟩ := reg_closed (show RegT (.regA n src) = true from hg) h
+    exact ⟨_, resolveAV_lit ctx _ (validChain_not_av hv), hv, h0⟩
   | regS n src x y z =>
-    have hv : ValidChain (.regS n src x y z) := hg
-    exact ⟨_, resolveAV_lit ctx _ (validChain_not_av hv), hv, by
-      rw [ExpandMacros.evalReg_noParam [] [] b _ (validChain_noParam hv)]; exact h⟩
-  | _ => simp [GoodSrc, ValidChain, validChain] at hg
+    obtain ⟨hv, h0⟩ := reg_closed (show RegT (.regS n src x y z) = true from hg) h
+    exact ⟨_, resolveAV_lit ctx _ (validChain_not_av hv), hv, h0⟩
+  | _ => simp [GoodSrc, RegT] at hg
 
 /-- **A qubit reference: whenever the specification evaluates it, the library resolves it, to the same fundamental
 qubit** — through macro parameters (register and index), alias chains and let constants. -/
@@ -401,35 +512,32 @@ theorem visit_arg {ctx : Resolve.Ctx} {b : Sem.Bind} (hrel : CtxRel ctx b) {a : 
       rw [hr] at hq'; cases hq'
       simpa [Has] using hm r i
   | regF n sz =>
-    have hv : ValidChain (.regF n sz) := hg
     simp only [Sem.evalArg, bind, Except.bind] at he
     cases hl : Sem.evalReg [] b (.regF n sz) with
     | error e => simp [hl] at he
     | ok l =>
       simp only [hl, pure, Except.pure, Except.ok.injEq] at he; subst he
-      rw [ExpandMacros.evalReg_noParam [] b [] _ (validChain_noParam hv)] at hl
+      obtain ⟨hv, hl0⟩ := reg_closed (show RegT (.regF n sz) = true from hg) hl
       rw [visitVal_register ctx _ _ hv] at hu
-      simpa [Has] using visitRegister_valid ctx _ hv l hl ua hu r i
+      simpa [Has] using visitRegister_valid ctx _ hv l hl0 ua hu r i
   | regA n src =>
-    have hv : ValidChain (.regA n src) := hg
     simp only [Sem.evalArg, bind, Except.bind] at he
     cases hl : Sem.evalReg [] b (.regA n src) with
     | error e => simp [hl] at he
     | ok l =>
       simp only [hl, pure, Except.pure, Except.ok.injEq] at he; subst he
-      rw [ExpandMacros.evalReg_noParam [] b [] _ (validChain_noParam hv)] at hl
+      obtain ⟨hv, hl0⟩ := reg_closed (show RegT (.regA n src) = true from hg) hl
       rw [visitVal_register ctx _ _ hv] at hu
-      simpa [Has] using visitRegister_valid ctx _ hv l hl ua hu r i
+      simpa [Has] using visitRegister_valid ctx _ hv l hl0 ua hu r i
   | regS n src x y z =>
-    have hv : ValidChain (.regS n src x y z) := hg
     simp only [Sem.evalArg, bind, Except.bind] at he
     cases hl : Sem.evalReg [] b (.regS n src x y z) with
     | error e => simp [hl] at he
     | ok l =>
       simp only [hl, pure, Except.pure, Except.ok.injEq] at he; subst he
-      rw [ExpandMacros.evalReg_noParam [] b [] _ (validChain_noParam hv)] at hl
+      obtain ⟨hv, hl0⟩ := reg_closed (show RegT (.regS n src x y z) = true from hg) hl
       rw [visitVal_register ctx _ _ hv] at hu
-      simpa [Has] using visitRegister_valid ctx _ hv l hl ua hu r i
+      simpa [Has] using visitRegister_valid ctx _ hv l hl0 ua hu r i
   | int k =>
     simp only [Sem.evalArg, Sem.evalNum, bind, Except.bind, pure, Except.pure, Except.ok.injEq] at he; subst he
     rw [C13_leaf_classical ctx _ _ (Or.inl ⟨k, rfl⟩)] at hu; cases hu
@@ -488,32 +596,29 @@ theorem bind_den {ctx : Resolve.Ctx} {b : Sem.Bind} (hrel : CtxRel ctx b) {a : V
         exact ⟨_, n, sz, qk, K, rfl, hK', h0, h1, by simp only [Prod.mk.injEq]; exact ⟨hn, trivial⟩⟩
       · rw [resolveAV_intOf hK' []] at hnone; cases hnone
   | regF n sz =>
-    have hv : ValidChain (.regF n sz) := hg
     simp only [bindArgument, pure, Except.pure, Except.ok.injEq] at hb; subst hb
     simp only [Sem.evalArg, bind, Except.bind] at he
     cases hl : Sem.evalReg [] b (.regF n sz) with
     | error e => simp [hl] at he
     | ok l =>
       simp only [hl, pure, Except.pure, Except.ok.injEq] at he; subst he
-      exact ⟨hv, by rw [ExpandMacros.evalReg_noParam [] [] b _ (validChain_noParam hv)]; exact hl⟩
+      exact reg_closed (show RegT (.regF n sz) = true from hg) hl
   | regA n src =>
-    have hv : ValidChain (.regA n src) := hg
     simp only [bindArgument, pure, Except.pure, Except.ok.injEq] at hb; subst hb
     simp only [Sem.evalArg, bind, Except.bind] at he
     cases hl : Sem.evalReg [] b (.regA n src) with
     | error e => simp [hl] at he
     | ok l =>
       simp only [hl, pure, Except.pure, Except.ok.injEq] at he; subst he
-      exact ⟨hv, by rw [ExpandMacros.evalReg_noParam [] [] b _ (validChain_noParam hv)]; exact hl⟩
+      exact reg_closed (show RegT (.regA n src) = true from hg) hl
   | regS n src x y z =>
-    have hv : ValidChain (.regS n src x y z) := hg
     simp only [bindArgument, pure, Except.pure, Except.ok.injEq] at hb; subst hb
     simp only [Sem.evalArg, bind, Except.bind] at he
     cases hl : Sem.evalReg [] b (.regS n src x y z) with
     | error e => simp [hl] at he
     | ok l =>
       simp only [hl, pure, Except.pure, Except.ok.injEq] at he; subst he
-      exact ⟨hv, by rw [ExpandMacros.evalReg_noParam [] [] b _ (validChain_noParam hv)]; exact hl⟩
+      exact reg_closed (show RegT (.regS n src x y z) = true from hg) hl
   | int k =>
     simp only [bindArgument, pure, Except.pure, Except.ok.injEq] at hb; subst hb
     simp only [Sem.evalArg, Sem.evalNum, bind, Except.bind, pure, Except.pure, Except.ok.injEq] at he; subst he
